@@ -30,6 +30,9 @@ def opTokens (ops : List String) : List Token :=
     | ["peer", _, t, _, _] => (parseTok t).bind id
     | ["blk", t, _, _, _] => (parseTok t).bind id
     | ["blkc", t, _, _, _] => (parseTok t).bind id
+    | ["blkp", t, _, _] => (parseTok t).bind id
+    | ["onote", t, _, _, _] => (parseTok t).bind id
+    | ["obs", _, t] => (parseTok t).bind id
     | _ => none
 
 def injective (toks : List Token) : Bool :=
@@ -80,6 +83,16 @@ def resolveMid (s : State) (sm : String) : Nat :=
       | none => 65000
     | none => 65000
   else sm.toNat?.getD 65000
+
+/-- ops that are other ops as far as the token table and the history are concerned: an observation is registered by a request like any
+    other (confirmable on the datagram transport) and its first notification is that request's response; later notifications are
+    messages under a token nobody waits for; a state-less block-wise server hands the caller the representation it asked for -/
+def normOp (udp : Bool) (f : List String) : List String :=
+  match f with
+  | ["obs", c, t] => ["do", c, t, "con"]
+  | ["onote", t, m, _, tag] => ["peer", if !udp then "resp" else if m.startsWith "@" then "pig" else "non", t, m, tag]
+  | ["blkp", t, m0, tag] => ["blk", t, m0, m0, tag]
+  | _ => f
 
 /-- apply one op; returns the new state and the `tx` events it causes -/
 def applyOp (cfg : Cfg) (s : State) (f : List String) : Option (State × List String) :=
@@ -151,7 +164,7 @@ def classify (line : String) : String :=
     let cfg : Cfg := ⟨tr == "udp", bw == "1"⟩
     let (_, flag) := ops.foldl (fun (acc : State × Bool) op =>
       let (s, flag) := acc
-      match applyOp cfg s (splitOp op).2 with
+      match applyOp cfg s (normOp cfg.udp (splitOp op).2) with
       | some (s1, _) =>
         -- quiescence, step by step, watching the leaving callers
         let (s2, fl) := Id.run do
@@ -188,7 +201,7 @@ def model (line : String) : String :=
     let inj := if injective (opTokens ops) then "inj=1" else "inj=0"
     let (_, segs, bad) := ops.foldl (fun (acc : State × List String × Bool) op =>
       let (s, segs, bad) := acc
-      match applyOp cfg s (splitOp op).2 with
+      match applyOp cfg s (normOp cfg.udp (splitOp op).2) with
       | some (s1, tx) =>
         let s2 := settle cfg s1
         (s2, segs ++ [segment tx s s2], bad)
@@ -212,7 +225,8 @@ def history (udp : Bool) (ops : List String) (segs : List String) : Option (List
   let mut windowStartIdx : List Nat := []
   let mut seenCon : List String := []     -- message IDs of confirmable messages already sent: a repeat is a retransmission
   for op in ops do
-    let (nowait, f) := splitOp op
+    let (nowait, f0) := splitOp op
+    let f := normOp udp f0
     match f with
     | ["do", c, t, typ] =>
       let c ← c.toNat?
@@ -236,6 +250,7 @@ def history (udp : Bool) (ops : List String) (segs : List String) : Option (List
     | ["blkc", t, _, _, tag] =>
       let t ← parseTok t
       hist := hist ++ [.peer (t.getD []) (padTag tag) true]
+
     | ["pipe", parts] =>
       for part in parts.splitOn "," do
         match part.splitOn "=" with
